@@ -150,9 +150,8 @@ Definition step (l : lab) (s : cl) : cl :=
       let s1 := set_cbq s (cbq s ++ [r]) in
       let ok := started s1 && negb (closing s1) && valid && negb (q_is_full s1) in
       if ok then emit (set_reqC (set_q s1 (q s1 ++ [r])) (reqC s1 + 1)) (ERet r 0)
-      else if started s1 && closing s1 && valid && negb (q_is_full s1) then
-        (* IsRunning still true, Push done, then a send on the closed requestChannel *)
-        emit s EPanic
+      (* while the dispatcher is closing the request is refused like on a stopped one (repair of F10; before, the
+         wake-up token was sent on the closed requestChannel: a panic) *)
       else emit (set_cbq s1 (remove_last (cbq s1))) (ERet r 1)
   | Reply r k =>
       (* ocppMessageHandler / ParseMessage: accepted only for the pending id *)
